@@ -19,6 +19,16 @@ def captures():
     return out
 
 
+def valid_dt(date, time):
+    """is (YYYYMMDD, HHMMSS) a date chrono accepts (year <= 262143) and a time of day?"""
+    y, m, d = date // 10000, date % 10000 // 100, date % 100
+    h, mi, sec = time // 10000, time % 10000 // 100, time % 100
+    if not (y <= 262143 and 1 <= m <= 12 and h < 24 and mi < 60 and sec < 60):
+        return False
+    dim = [31, 29 if (y % 4 == 0 and y % 100 != 0) or y % 400 == 0 else 28, 31, 30, 31, 30, 31, 31, 30, 31, 30, 31][m - 1]
+    return 1 <= d <= dim
+
+
 def run(ctx, out):
     layout = S.load_schema(ctx.schema)
     rng = ctx.rng
@@ -80,7 +90,13 @@ def run(ctx, out):
         for date in (20231005, 20231105, 20231231, 20230229, 20240229, 20231301, 20230001, 20230100, 20230132, 99991231, 0, 10101, 4294967295, 18446744073709551615, 2147483648 * 10000 + 101, 262143 * 10000 + 1231, 262144 * 10000 + 101):
             for time in (0, 235959, 240000, 236000, 235960, 999999, 4294967295):
                 payload = b"\x1f\x0e" + R.ber_len(len(R.bcd(date))) + R.bcd(date) + b"\x1f\x0f" + R.ber_len(len(R.bcd(time))) + R.bcd(time)
-                add("dec " + rp["name"] + " " + (bytes([0x34]) + R.ber_len(len(payload)) + payload).hex(), "calendar")
+                add("dec " + rp["name"] + " " + (bytes([0x34]) + R.ber_len(len(payload)) + payload).hex(), "calendar" + ("" if valid_dt(date, time) else "-impossible"))
+        # derived quantities that are valid only modulo a machine word: hour = 12 + k, year = 2023 + k for k = 2^8, 2^16, 2^31, 2^32, 3*2^32
+        # (a decoder that narrows with `as` instead of a checked conversion accepts them)
+        for k in (2 ** 8, 2 ** 16, 2 ** 31, 2 ** 32, 3 * 2 ** 32):
+            for date, time in ((20231005, (12 + k) * 10000 + 3456), ((2023 + k) * 10000 + 1005, 123456), ((2023 + k) * 10000 + 1005, (12 + k) * 10000 + 3456)):
+                payload = b"\x1f\x0e" + R.ber_len(len(R.bcd(date))) + R.bcd(date) + b"\x1f\x0f" + R.ber_len(len(R.bcd(time))) + R.bcd(time)
+                add("dec " + rp["name"] + " " + (bytes([0x34]) + R.ber_len(len(payload)) + payload).hex(), "calendar" + ("" if valid_dt(date, time) else "-impossible"))
     seen = set()
     for name, b in corpus:
         # truncations
@@ -144,11 +160,14 @@ def run(ctx, out):
         if r in BAD or r.startswith("alloc-exceeded"):
             out.oracle_failures.append({"op": o[:400], "observed": r, "expected": "ok … | err …", "key": o[:160],
                                         "what": "decoder " + {"panic": "panics", "died": "aborts the process", "hang": "does not return", "slow": "needs more than 5 s"}.get(r, "allocates beyond a small multiple of its input") + f" ({kd})"})
+        elif kd == "calendar-impossible" and r.startswith("ok"):
+            out.oracle_failures.append({"op": o[:400], "observed": r[:200], "expected": "err …", "key": o[:160],
+                                        "what": "an impossible date / time of day is accepted: a number that does not fit its field must be an error, not a silently narrowed value"})
         elif rr != r:
             out.oracle_failures.append({"op": o[:400], "observed": "release: " + rr[:160], "expected": "debug: " + r[:160], "key": o[:160],
                                         "what": f"debug and release builds decode differently ({kd}): a number that does not fit its field must be an error, not a wrapped value"})
     out.rule = (f"every body of length <= 2 for all {len(cmds)} command decoders, {len(plain)} container decoders and {len(enums)} reply parsers (length 2: {'all 65536' if thorough else 'a 52x47 boundary grid'}); "
                 f"corpus = {len(caps)} captured blobs + {per} canonical packets per type: every truncation, single-byte substitutions ({'all 256' if thorough else '24 boundary'} values per offset), structure-aware mutations "
-                "(length edits, 81/82/FF/1F insertions, splices, deletions, 99.. digit runs, APDU length edits), calendar values, 64 KiB inputs; dev (overflow checks) and release builds answer identically; "
+                "(length edits, 81/82/FF/1F insertions, splices, deletions, 99.. digit runs, APDU length edits), calendar values (incl. hours / years that are valid only modulo 2^8 .. 2^32), 64 KiB inputs; dev (overflow checks) and release builds answer identically; "
                 "allocation/time watchdog. non-trivial = distinct inputs that are rejected with an error")
     out.samples = [ops[5], ops[len(ops) // 2][:200], {"op": ops[-1][:80] + "…", "impl": impl[-1][:80]}]
